@@ -52,6 +52,12 @@ type Spec struct {
 	Mode  string  `json:"mode,omitempty"`  // seq: how the objects are built (own | shared | json)
 	Par   int     `json:"par,omitempty"`   // seq: goroutines re-running the steps on the same objects
 	First bool    `json:"first,omitempty"` // seq: the goroutines run before the sequential pass (objects not yet validated)
+	// seq: the last entry of ABI is a function whose Inputs slice is objects[0].Inputs[:k] -- the SAME backing
+	// array, cap > len (an append to it lands in the event's parameter list)
+	PrefixTwin bool `json:"prefix_twin,omitempty"`
+	// err / touch step of a sequence: run on the sub-slice objects[:Prefix] of the sequence's ABI slice (cap > len,
+	// the entries after it belong to the longer ABI)
+	Prefix int `json:"prefix,omitempty"`
 	What  string  `json:"what,omitempty"`  // filled in when a Go-side oracle fails on the case
 	Changed []string `json:"changed,omitempty"`
 
@@ -61,8 +67,10 @@ type Spec struct {
 	coqEnt  string // Coq name bound to the entry / entries by the enclosing sequence term
 	coqEnts []string
 	panicked bool
+	arena    *cv.Arena // inside a sequence: topics / data are carved from one arena, followed by other bytes
 	// retain re-projects the raw values the implementation returned for this step (selector / hash slices,
 	// decoded trees, call data); a sequence calls it again after all later steps have run
+	aliasing  []string // writes through / beyond the caller's slices noticed by the step itself
 	retain    func() string
 	retained0 string
 }
@@ -73,6 +81,29 @@ func (s *Spec) abiEntry() *abi.Entry {
 		return s.ae
 	}
 	return s.Entry.Abi()
+}
+
+// carve: inside a sequence byte inputs live in one arena, each followed by the next one (cap > len)
+func (s *Spec) carve(b []byte) []byte {
+	if s.arena == nil || b == nil {
+		return b
+	}
+	return s.arena.Put(b)
+}
+
+// arenaGuard: call after all inputs are carved; the returned function, called after the implementation ran,
+// notes a write to the caller's bytes (the inputs themselves or the bytes that follow them)
+func (s *Spec) arenaGuard() func(what string) {
+	if s.arena == nil {
+		return func(string) {}
+	}
+	s.arena.Put(keccak([]byte("bytes after the last input")))
+	snap := s.arena.Snapshot()
+	return func(what string) {
+		if !s.arena.Unchanged(snap) {
+			s.aliasing = append(s.aliasing, what+" wrote to the caller's topic / data bytes (or the bytes after them)")
+		}
+	}
 }
 
 func (s *Spec) keep(f func() string) {
@@ -221,7 +252,10 @@ func runDec(s *Spec, st *cv.Stats) string {
 	ae := s.abiEntry()
 	var dec *abi.ComponentValue
 	var err error
-	p, msg := safely(func() { dec, err = ae.DecodeCallData(s.Data) })
+	data := s.carve(s.Data)
+	guard := s.arenaGuard()
+	p, msg := safely(func() { dec, err = ae.DecodeCallData(data) })
+	guard("DecodeCallData")
 	c := class(err, p)
 	decV := &V{Nil: true}
 	if c == 0 {
@@ -256,9 +290,36 @@ func runEvent(s *Spec, st *cv.Stats) string {
 	if s.Topics == nil && s.Class != "nil-topics" {
 		topics = []ethtypes.HexBytes0xPrefix{}
 	}
+	evData := ethtypes.HexBytes0xPrefix(s.Data)
+	var tfull []ethtypes.HexBytes0xPrefix
+	var canaryA, canaryB ethtypes.HexBytes0xPrefix
+	if s.arena != nil {
+		// the topics slice is a sub-slice with spare capacity; what follows it are the topics of "another log"
+		tfull = make([]ethtypes.HexBytes0xPrefix, len(s.Topics), len(s.Topics)+2)
+		for i, t := range s.Topics {
+			tfull[i] = ethtypes.HexBytes0xPrefix(s.carve(t))
+		}
+		canaryA, canaryB = ethtypes.HexBytes0xPrefix(s.carve(keccak([]byte("canary-a")))), ethtypes.HexBytes0xPrefix(s.carve(keccak([]byte("canary-b"))))
+		tail := tfull[:cap(tfull)]
+		tail[len(s.Topics)], tail[len(s.Topics)+1] = canaryA, canaryB
+		topics = tfull
+		evData = ethtypes.HexBytes0xPrefix(s.carve(s.Data))
+	}
 	var dec *abi.ComponentValue
 	var err error
-	p, msg := safely(func() { dec, err = ae.DecodeEventData(topics, ethtypes.HexBytes0xPrefix(s.Data)) })
+	guard := s.arenaGuard()
+	p, msg := safely(func() { dec, err = ae.DecodeEventData(topics, evData) })
+	guard("DecodeEventData")
+	if tfull != nil {
+		tail := tfull[:cap(tfull)]
+		same := len(tail) == len(s.Topics)+2 && &tail[len(s.Topics)][0] == &canaryA[0] && &tail[len(s.Topics)+1][0] == &canaryB[0]
+		for i, t := range s.Topics {
+			same = same && len(tail[i]) == len(t) && string(tail[i]) == string(t)
+		}
+		if !same {
+			s.aliasing = append(s.aliasing, "DecodeEventData changed the caller's topics slice (elements, or the slots after its length)")
+		}
+	}
 	c := class(err, p)
 	var outs []string
 	var desc []string
@@ -343,9 +404,12 @@ func runErr(s *Spec, st *cv.Stats) string {
 	var cvv *abi.ComponentValue
 	var ok, sok bool
 	var str string
+	rdata := s.carve(s.Data)
+	guard := s.arenaGuard()
+	defer guard("ParseError / ErrorString")
 	p, msg := safely(func() {
-		en, cvv, ok = a.ParseError(s.Data)
-		str, sok = a.ErrorString(s.Data)
+		en, cvv, ok = a.ParseError(rdata)
+		str, sok = a.ErrorString(rdata)
 	})
 	c := 0
 	if p {
@@ -365,6 +429,21 @@ func runErr(s *Spec, st *cv.Stats) string {
 			}
 		}
 		obs = fmt.Sprintf("found abi[%d] %s args=%s", idx, sig, v.Describe())
+		// identity of the attributed entry: an error definition of THIS ABI (or the built-in one, which is not an
+		// element of it) whose selector -- computed by the harness from the definition -- the data carries.  Which of
+		// several definitions with the same signature is returned is not fixed by the property.
+		var def *Entry
+		if idx >= 0 && idx < len(s.ABI) {
+			def = s.ABI[idx]
+		} else {
+			def = &Entry{Type: "error", Name: "Error", Inputs: []Param{{T: &T{K: kString, Name: "reason"}}}}
+		}
+		if def.Type != "error" || !def.valid() || len(s.Data) < 4 || string(def.Selector()) != string(s.Data[:4]) || (idx < 0 && en.Name != "Error") {
+			st.ImplFailures = append(st.ImplFailures, map[string]interface{}{
+				"what": "ParseError attributed revert data to an entry that is not an error definition of the ABI (or the built-in Error(string)) carrying its selector",
+				"key":  s.Key, "kind": s.Kind, "class": s.Class, "abi": s.ABI, "data": s.Data, "describe": "abi=[" + strings.Join(descs, "; ") + "] data=" + short(s.Data),
+				"observed": obs})
+		}
 		if parts, pok := formatArgs(cvv); pok {
 			ps := make([]string, len(parts))
 			for i, b := range parts {
